@@ -195,7 +195,8 @@ def run(model, col, tier):
                   f"AddModule does not enter the module's {what} into the linker's table: {what.lower()} of a linked or imported module are missing from the program", IR, addm)
     # the linker's own fields all exist (a missing one only shows when an import is actually loaded)
     init_l = lk.own_method("__init__")
-    stored = {n.targets[0].attr for n in ast.walk(init_l) if isinstance(n, ast.Assign) and isinstance(n.targets[0], ast.Attribute)}
+    stored = {n.targets[0].attr for n in ast.walk(init_l) if isinstance(n, ast.Assign) and isinstance(n.targets[0], ast.Attribute)} | \
+             {n.target.attr for n in ast.walk(init_l) if isinstance(n, ast.AnnAssign) and n.value is not None and isinstance(n.target, ast.Attribute)}
     for mname_, m_ in lk.methods.items():
         for n in ast.walk(m_):
             if isinstance(n, ast.Attribute) and isinstance(n.value, ast.Name) and n.value.id == "self" and n.attr.startswith("__") and not n.attr.endswith("__") and isinstance(n.ctx, ast.Load):
@@ -232,12 +233,16 @@ def run(model, col, tier):
     # ---------------- R16.5 -------------------------------------------------------
     ctm = model.cls(CT, "ComputeTypeVisitor").own_method("v_Module")
     reads = {}
+    from ..sem import local_env as _le165, resolve as _rs165
+
+    ct_env, lw_env = _le165(ctm, allow_impure=True), _le165(lvm, allow_impure=True)
     for x in ast.walk(ctm):
-        if isinstance(x, ast.For) and isinstance(x.iter, ast.Subscript) and "Metadata" in unparse(x.iter.value) and isinstance(x.iter.slice, ast.Constant):
-            reads[x.iter.slice.value] = x
+        it = _rs165(x.iter, ct_env) if isinstance(x, ast.For) else None
+        if isinstance(it, ast.Subscript) and "Metadata" in unparse(_rs165(it.value, ct_env)) and isinstance(it.slice, ast.Constant):
+            reads[it.slice.value] = x
     writes = {}
     for x in ast.walk(lvm):
-        if isinstance(x, ast.Assign) and isinstance(x.targets[0], ast.Subscript) and "Metadata" in unparse(x.targets[0].value) and isinstance(x.targets[0].slice, ast.Constant):
+        if isinstance(x, ast.Assign) and isinstance(x.targets[0], ast.Subscript) and "Metadata" in unparse(_rs165(x.targets[0].value, lw_env)) and isinstance(x.targets[0].slice, ast.Constant):
             writes[x.targets[0].slice.value] = x
     col.floor("R16.5", "metadata keys read by the importer", len(reads), 2)
     expect_src = {"functions": "GetFunctions", "types": "GetTypes"}
@@ -316,10 +321,18 @@ def run(model, col, tier):
     for rel, fi in sorted(model.files.items()):
         if not (rel.startswith("nsl/") or rel in ("nslc.py", "nslr.py")):
             continue
+        envs = {}
+        for f_ in ast.walk(fi.tree):
+            if isinstance(f_, ast.FunctionDef):
+                e_ = _le165(f_, allow_impure=True)
+                for y in ast.walk(f_):
+                    envs.setdefault(id(y), e_)
         for x in ast.walk(fi.tree):
             tg = x.targets if isinstance(x, ast.Assign) else [x.target] if isinstance(x, ast.AugAssign) else []
             for t in tg:
-                if isinstance(t, ast.Subscript) and isinstance(t.value, ast.Attribute) and t.value.attr == "Metadata":
+                # through a local alias of the table as well (`md = module.Metadata; md[k] = ..`)
+                base = _rs165(t.value, envs.get(id(x), {})) if isinstance(t, ast.Subscript) else None
+                if isinstance(base, ast.Attribute) and base.attr == "Metadata":
                     writers.append((rel, x))
             if isinstance(x, ast.Delete):
                 for t in x.targets:
